@@ -55,6 +55,10 @@ func scionMuts() []smut {
 			binary.BigEndian.PutUint16(b[o:], 4000)
 			return b
 		}, ok: true}, // (the predicate fails only where the edit is applied, see below)
+		// the host address *type* is part of the address: the same four bytes as a
+		// service address are not the queried host / the client
+		{name: "src-host-type-svc", apply: func(p *kit.Pkt) {}, post: func(b []byte) []byte { b[9] = b[9]&0xf0 | 0x04; return b }, ok: true},
+		{name: "dst-host-type-svc", apply: func(p *kit.Pkt) {}, post: func(b []byte) []byte { b[9] = b[9]&0x0f | 0x40; return b }, ok: true},
 	}
 }
 
